@@ -321,6 +321,42 @@ proof fn vac__must_go_on_chain_for(htlc: &HTLCOutputInCommitment, htlc_outbound:
     requires height <= 0x7fff_ffff, htlc.cltv_expiry <= 0x7fff_ffff,
     ensures false
 {}
+fn htlc_is_ours_to_time_out(htlc: &HTLCOutputInCommitment, which_commitment: u8) -> (r: bool)
+    ensures
+    r == ((which_commitment == 0) == htlc.offered),
+ {
+        
+        let m_holder_tx = if which_commitment == 0 { true } else if which_commitment == 1 { false } else { false };
+        let htlc_outbound = m_holder_tx == htlc.offered; htlc_outbound
+    }
+
+// the only case in which the deadlines are not looked at: a spend of the funding output is already in a block
+pub struct SpendTxid { pub id: u64 }
+pub enum MonOnchainEvent { FundingSpendConfirmation { on_local_output_csv: Option<u16> }, HTLCUpdate { id: u64 }, MaturingOutput { id: u64 }, Other }
+pub struct MonEventEntry { pub height: u32, pub event: MonOnchainEvent }
+pub struct DeadlineMonitor { pub funding_spend_confirmed: Option<SpendTxid>, pub funding_spend_seen: bool, pub holder_tx_signed: bool, pub alternative_funding_confirmed: Option<(SpendTxid, u32)>, pub onchain_events_awaiting_threshold_conf: Vec<MonEventEntry> }
+pub open spec fn funding_spend_in_a_block(m: &DeadlineMonitor) -> bool {
+    m.funding_spend_confirmed is Some || (exists|k: int| 0 <= k < m.onchain_events_awaiting_threshold_conf@.len() && (#[trigger] m.onchain_events_awaiting_threshold_conf@[k]).event is FundingSpendConfirmation)
+}
+impl DeadlineMonitor {
+fn htlc_deadlines_are_not_looked_at(&self) -> (r: bool)
+    ensures
+    r == funding_spend_in_a_block(self),
+ {
+        
+        let mut __found = false; let mut __i: usize = 0;
+        while __i < self.onchain_events_awaiting_threshold_conf.len()
+            invariant __i <= self.onchain_events_awaiting_threshold_conf@.len(), __found == (exists|k: int| 0 <= k < __i && (#[trigger] self.onchain_events_awaiting_threshold_conf@[k]).event is FundingSpendConfirmation),
+            decreases self.onchain_events_awaiting_threshold_conf@.len() - __i
+        { let event = &self.onchain_events_awaiting_threshold_conf[__i]; let __b: bool = match event.event {
+				MonOnchainEvent::FundingSpendConfirmation { .. } => true,
+				_ => false,
+			}; if __b { __found = true; } __i = __i + 1; }
+        if self.funding_spend_confirmed.is_some() || __found { return true; }
+        false
+    }
+
+}
 // ---- what is actually offered downstream (deep R15 slice of ChannelManager::process_forward_htlcs: the first three arguments of the queue_add_htlc call) ----
 #[derive(Clone, Copy)] pub struct FwdPaymentHash(pub [u8; 32]);
 fn values_offered_downstream(outgoing_amt_msat: &u64, payment_hash: &FwdPaymentHash, outgoing_cltv_value: &u32) -> (r: (u64, FwdPaymentHash, u32))
